@@ -370,6 +370,8 @@ impl RocksDBStateMachine {
     ) -> usize {
         let start = std::time::Instant::now();
         let now = SystemTime::now();
+        #[cfg(d_engine_verif)]
+        let now = crate::storage::verif_clock::now_or(now);
         let mut deleted_count = 0;
 
         // Fast path: skip if TTL never used (lazy activation)
@@ -1115,6 +1117,8 @@ impl StateMachine for RocksDBStateMachine {
         }
 
         let now = SystemTime::now();
+        #[cfg(d_engine_verif)]
+        let now = crate::storage::verif_clock::now_or(now);
 
         // Fast path: sample first 10 entries — if none expired, skip full scan (~30ns)
         if !lease.may_have_expired_keys(now) {
